@@ -135,9 +135,13 @@ Definition hm_pause (t : Z) (s : xst) : xres :=
 Definition fmb_penalize (p : xpar) (r : xres) : xres :=
   if kd_ended (snd r) then (set_l2 (fst r) (xp_t1 p, xp_t1 p), snd r) else r.
 Definition fmb_use (p : xpar) (s : xst) : xres := lift s (use_keydown_trait (xp p) (x_u s)).
+(* elapse, after the repair f0eb2ac: the penalty armed when the key-down runs out is aged by the time that
+   passed since it ran out (set_time_left(duration); elapse(-keydown.time_left), time_left <= 0 there) *)
+Definition fmb_penalize_elapse (p : xpar) (r : xres) : xres :=
+  if kd_ended (snd r) then (set_l2 (fst r) (xp_t1 p + K.tl (u_kd (x_u (fst r))), xp_t1 p), snd r) else r.
 Definition fmb_elapse (p : xpar) (t : Z) (s : xst) : xres :=
   let s0 := set_l2 s (fst (x_l2 s) - t, snd (x_l2 s)) in
-  fmb_penalize p (lift s0 (elapse_keydown_trait (xp p) t (x_u s))).
+  fmb_penalize_elapse p (lift s0 (elapse_keydown_trait (xp p) t (x_u s))).
 Definition fmb_stop (p : xpar) (s : xst) : xres := fmb_penalize p (lift s (stop_keydown_trait (xp p) (x_u s))).
 
 (* MultipleOptionComponent *)
@@ -221,9 +225,12 @@ Definition cm_use (p : xpar) (s : xst) : xres :=
        (set_ls (set_u s (set_p1 (set_cd u (p_cdA (xp p))) (P.set_time_left q1 (u_ic1 u) (p_last (xp p))))) (LS.reset (x_ls s)),
         [EDelay (p_delay (xp p))]).
 
-(* FlareSlash: the cooldown is reduced BEFORE the availability test of use_simple_attack (as coded) *)
+(* FlareSlash: the cooldown is reduced BEFORE the availability test of use_simple_attack (as coded); after
+   the repair 5aadaec the two triggers are @ignore_rejected: while cooling down they shorten the cooldown
+   silently *)
 Definition fs_trigger (r : Z) (p : xpar) (s : xst) : xres :=
-  let u := x_u s in let s1 := set_u s (set_cd u (u_cd u - r)) in lift s1 (use_simple_attack (xp p) (x_u s1)).
+  let u := x_u s in let s1 := set_u s (set_cd u (u_cd u - r)) in
+  lift s1 (ignore_rejected (use_simple_attack (xp p) (x_u s1))).
 
 (* =============================== dualblade.py =============================== *)
 Definition fc_use (p : xpar) (s : xst) : xres := lift s (use_simple_attack (xp p) (x_u s)).
